@@ -462,3 +462,22 @@ def strict_get_lookup(src, fi, gcall: ast.Call):
                 if rs and all(e in lib for e, _ in rs) and not may_complete_normally(n.orelse):
                     return v
     return None
+
+
+def inlined_function(src, qualname: str, depth: int = 2):
+    """(FunctionInfo copy whose node has the calls of helpers of its own class inlined -- top-level statement order kept)"""
+    import copy as _copy
+    from ..inline import inline_methods, class_resolver
+    key = (id(src), 'inl', qualname, depth)
+    if key in _norm_cache:
+        return _norm_cache[key]
+    fi = src.func(qualname)
+    if fi is None:
+        raise AnalysisError('common', f'{qualname} not found')
+    if fi.cls is None:
+        _norm_cache[key] = fi
+        return fi
+    f2 = _copy.copy(fi)
+    f2.node = inline_methods(fi.node, class_resolver(src, fi.cls, fi), depth=depth)
+    _norm_cache[key] = f2
+    return f2
